@@ -8,6 +8,7 @@ CONSTANTS
   MaxDeletes = 3
   Coords = {"A", "B", "X"}
   MaxRestores = 2
+  MaxPauseOps = 3
   Shapes = {"plain", "dup", "empty"}
   GetDs = {0, 1}
 CHECK_DEADLOCK FALSE
